@@ -170,11 +170,23 @@ def gen_case(chk, i):
              "usleep %d" % gap, "ev OB. now 0304", "ev OHe now -", "flush", "free"]
         secs, nth, mode = [a, b], 2, "gap"
         infos = [{"targets": []}]
+    if i % 20 == 11:
+        # two threads hand one CPU over to each other through the documented intermediate states: B runs and
+        # pauses, A executes on the same CPU, B warms up while A still runs, A cools down and ends, B resumes
+        a = ["init %d" % tb, "vercheck", "cpu 0 0", "require nosv 2.0.0", "barrier",
+             "ev OHx now %s" % obs.i32(0, tb, 0).hex(), "ev OB. now 0a0a", "barrier", "barrier",
+             "ev OHc now -", "ev OB. now 0b0b"] + (["ev OHp now -", "ev OHr now -"] if (i // 20) % 2 else []) + \
+            ["ev OHe now -", "barrier", "flush", "free"]
+        b = ["init %d" % (tb + 1), "vercheck", "require nosv 2.0.0", "ev OHx now %s" % obs.i32(0, tb + 1, 0).hex(),
+             "ev OB. now 0101", "ev OHp now -", "barrier", "barrier", "ev OHw now -", "barrier", "barrier",
+             "ev OHr now -", "ev OB. now 0202", "ev OHe now -", "flush", "free"]
+        secs, nth, mode = [a, b], 2, "handoff"
+        infos = [{"targets": []}]
     out = ["proc 1 node%d %d" % (i % 3, pid)]
     for ops in secs:
         out.append("thread"); out.extend(ops); out.append("end")
     out.append("fini")
-    return {"case": i, "mode": mode, "threads": nth, "targets": infos[0]["targets"],
+    return {"case": i, "mode": mode, "threads": nth, "ncpus": 1 if mode == "handoff" else nth, "targets": infos[0]["targets"],
             "tmpdir": (i % 5 == 4) or (nth > 1 and i % 4 == 0) or mode == "huge", "shortwrite": (i if i % 4 == 3 else 0), "nostdin": (i % 7 == 5), "script": "\n".join(out) + "\n"}
 
 
@@ -307,7 +319,7 @@ def run_case(i):
                 declared.update(c["index"] for c in m.get("ovni", {}).get("loom_cpus", []))
             except (OSError, ValueError, KeyError, TypeError):
                 pass
-        missing = sorted(set(range(info["threads"])) - declared)
+        missing = sorted(set(range(info.get("ncpus", info["threads"]))) - declared)
         if missing:
             out["viol"] = ("metadata-incomplete:cpus-dropped", "CPUs %s were declared with ovni_add_cpu but are in no stream's "
                            "metadata" % missing[:8], {}); return out
